@@ -1,9 +1,184 @@
-(* C34 - custodian updates are accepted only in canonical, fully signed form. *)
-From Coq Require Import List ZArith NArith Bool Arith.
-Require Import Mixin.Base.Res Mixin.Model.Custodian Mixin.Proofs.Custodian.
+(* C34 - custodian updates are accepted only in canonical, fully signed form;
+   encoding an update and parsing it back returns the same entries.
+   Property theorems only; each is closed by a lemma of Proofs/Custodian.v
+   about the executable model Model/Custodian.v, which the correspondence
+   harness (harness/cmd/c34) runs against common/custodian.go.
+
+   [verify key msg sig] stands for key.Verify(Blake3Hash(msg), sig): the
+   theorems hold for every such function (no assumption on the scheme). *)
+From Coq Require Import List ZArith NArith Bool Arith Sorted Permutation.
+Require Import Mixin.Base.Res Mixin.Gen.Consts Mixin.Model.Fixed Mixin.Model.Custodian Mixin.Proofs.Custodian.
 Import ListNotations.
 Local Open Scope nat_scope.
 
-Theorem C34_layout : node_size = 1 + 4 * 32 + 32 + 3 * 64.
-Proof. exact node_size_layout. Qed.
-Print Assumptions C34_layout.
+(* Acceptance by validateCustodianUpdateNodes, for EVERY extra, previous
+   custodian state and transaction: the extra is exactly the encoding of its
+   entries; there are at least 7; they are strictly sorted by custodian spend
+   key in bytes.Compare order; all custodian and payee spend keys are pairwise
+   distinct; every entry has the 353-byte layout and carries valid payee and
+   custodian signatures over its first 161 bytes; the approval signature
+   verifies under the CURRENT custodian's key over everything but itself; and
+   the amount is at least 100 per new plus 1 per changed entry, new/changed
+   being judged by the custodian address against the previous state. *)
+Theorem C34_accept_implies : forall verify tx extra store,
+  validate_update verify tx extra store = Ok tt ->
+  exists out u prev,
+    t_outputs tx = [out] /\ store = StoreSome prev /\ extra = encode_update u /\
+    min_count <= length (u_nodes u) /\
+    StronglySorted nlt (u_nodes u) /\
+    NoDup (spend_keys (u_nodes u)) /\
+    Forall (fun n => node_shape n /\ node_signed verify n) (u_nodes u) /\
+    verify (fst (p_cust prev))
+           (fst (u_cust u) ++ snd (u_cust u) ++ concat (map cn_extra (u_nodes u))) (u_sig u) = true /\
+    (new_price * Z.of_nat (length (filter (is_new (p_nodes prev)) (u_nodes u)))
+     + update_price * Z.of_nat (length (filter (fun n => negb (is_new (p_nodes prev) n) && is_changed (p_nodes prev) n)
+                                                (u_nodes u)))
+     <= o_amount out)%Z.
+Proof.
+  intros verify tx extra store H. apply accepted_facts. apply validate_update_accept. exact H.
+Qed.
+Print Assumptions C34_accept_implies.
+
+(* The prices are the repository's constants: 100 and 1 whole units. *)
+Theorem C34_prices : new_price = (100 * 10 ^ 8)%Z /\ update_price = (1 * 10 ^ 8)%Z /\ min_count = 7 /\ node_size = 353.
+Proof. exact (conj new_price_val (conj update_price_val (conj min_count_val node_size_val))). Qed.
+Print Assumptions C34_prices.
+
+(* Acceptance is EXACTLY the rule (both directions), including the
+   transaction shape, the same-custodian rule and the absence of panics. *)
+Theorem C34_accept_iff : forall verify tx extra store,
+  validate_update verify tx extra store = Ok tt <-> accepted verify tx extra store.
+Proof. exact validate_update_accept. Qed.
+Print Assumptions C34_accept_iff.
+
+(* The parser accepts exactly the canonical encodings of well-formed entry
+   lists: in particular parse (encode u) = Ok u, and an accepted byte string
+   is the encoding of what was parsed (nothing is lost or ignored). *)
+Theorem C34_parse_iff : forall verify genesis extra u,
+  parse_update verify genesis extra = Ok u <-> extra = encode_update u /\ update_wf verify genesis u.
+Proof. exact parse_update_spec. Qed.
+Print Assumptions C34_parse_iff.
+
+Theorem C34_roundtrip : forall verify genesis u,
+  update_wf verify genesis u -> parse_update verify genesis (encode_update u) = Ok u.
+Proof. intros verify g u W. apply parse_update_spec. split; [reflexivity|exact W]. Qed.
+Print Assumptions C34_roundtrip.
+
+Theorem C34_roundtrip_canonical : forall verify genesis extra u,
+  parse_update verify genesis extra = Ok u -> encode_update u = extra.
+Proof. intros verify g extra u H. apply parse_update_spec in H as [E _]. symmetry. exact E. Qed.
+Print Assumptions C34_roundtrip_canonical.
+
+(* One entry: parseCustodianNode accepts exactly the 353-byte entries with the
+   update action whose fields sit at the documented offsets and (outside
+   genesis) whose payee and custodian signatures verify. *)
+Theorem C34_entry_iff : forall verify genesis e n,
+  parse_node verify genesis e = Ok n <-> cn_extra n = e /\ node_ok verify genesis n.
+Proof. exact parse_node_spec. Qed.
+Print Assumptions C34_entry_iff.
+
+(* What EncodeCustodianNode lays out parses back to the same entry: for fields
+   of the right sizes, distinct payee and custodian keys, and payee / custodian
+   signatures over the 161-byte signed part. *)
+Theorem C34_roundtrip_entry : forall verify f,
+  fields_wf f ->
+  fst (f_payee f) <> fst (f_cust f) ->
+  verify (fst (f_payee f)) (signed_part f) (f_payee_sig f) = true ->
+  verify (fst (f_cust f)) (signed_part f) (f_cust_sig f) = true ->
+  parse_node verify false (encode_node f) = Ok (cnode_of_fields f).
+Proof. exact encode_node_parses. Qed.
+Print Assumptions C34_roundtrip_entry.
+
+(* Entries that are not strictly sorted by custodian key - out of order or
+   with a repeated key - are rejected, whatever the signatures, in both modes. *)
+Theorem C34_reject_unsorted_or_duplicate : forall verify genesis u,
+  update_shaped u ->
+  (~ StronglySorted nlt (u_nodes u) \/ ~ NoDup (map cn_cust_spend (u_nodes u))) ->
+  parse_update verify genesis (encode_update u) = Err.
+Proof.
+  intros verify g u Sh [H|H]; apply parse_rejects_unsorted; auto. apply unsorted_of_duplicate. exact H.
+Qed.
+Print Assumptions C34_reject_unsorted_or_duplicate.
+
+(* The model sorts by insertion; Go uses the unstable sort.Slice.  With the
+   distinct keys the uniqueness filter guarantees, EVERY correct sort returns
+   the same list, so the choice of algorithm cannot matter. *)
+Theorem C34_sort_model_adequate : forall l l',
+  Permutation l' l -> StronglySorted nle l' -> NoDup (map cn_cust_spend l) -> l' = sort_nodes l.
+Proof. exact any_sort_is_sort_nodes. Qed.
+Print Assumptions C34_sort_model_adequate.
+
+(* Parsing and validation never panic on any input, except validation when
+   the store hands back a previous state with a repeated custodian address. *)
+Theorem C34_parse_total : forall verify genesis extra, parse_update verify genesis extra <> Panic.
+Proof. exact parse_update_no_panic. Qed.
+Print Assumptions C34_parse_total.
+
+(* ---- non-vacuity: a concrete 7-entry update ----------------------------------------- *)
+Definition ex_key (x : N) : bytes := x :: repeat 0%N 31.
+Definition ex_fields (i : N) : node_fields :=
+  {| f_cust := (ex_key i, ex_key (100 + i)); f_payee := (ex_key (50 + i), ex_key (150 + i));
+     f_node_id := repeat 7%N 32; f_signer_sig := repeat 1%N 64;
+     f_payee_sig := repeat 2%N 64; f_cust_sig := repeat 3%N 64 |}.
+Definition ex_update (order : list N) : update :=
+  {| u_cust := (ex_key 200, ex_key 201);
+     u_nodes := map (fun i => cnode_of_fields (ex_fields i)) order;
+     u_sig := repeat 9%N 64 |}.
+Definition ex_good := ex_update [1; 2; 3; 4; 5; 6; 7]%N.
+Definition yes (k m s : bytes) := true.
+(* only signatures made of 2s (payee) or 3s (custodian) or 9s (approval by key 250) verify *)
+Definition ex_verify (k m s : bytes) : bool :=
+  match s with
+  | 9%N :: _ => bytes_eqb k (ex_key 250)
+  | 2%N :: _ => (50 <? hd 0 k)%N
+  | 3%N :: _ => (hd 0 k <? 50)%N
+  | _ => false
+  end.
+Definition ex_tx (amount : Z) : txshape :=
+  {| t_version := Consts.CusTxVersionHashSignature; t_asset := Consts.CusXINAssetId;
+     t_outputs := [ {| o_type := Consts.CusOutputTypeCustodianUpdateNodes; o_nkeys := 1;
+                       o_script := storage_script; o_amount := amount |} ] |}.
+Definition ex_prev : prev_state :=
+  {| p_cust := (ex_key 250, ex_key 251);
+     p_nodes := [ ((ex_key 1, ex_key 101), (ex_key 51, ex_key 151));      (* unchanged *)
+                  ((ex_key 2, ex_key 102), (ex_key 52, ex_key 99)) ] |}.  (* payee changed *)
+
+Example ex_parse_roundtrip : parse_update ex_verify false (encode_update ex_good) = Ok ex_good.
+Proof. vm_compute. reflexivity. Qed.
+
+Example ex_wf : update_wf ex_verify false ex_good.
+Proof. apply (proj1 (C34_parse_iff ex_verify false (encode_update ex_good) ex_good)). exact ex_parse_roundtrip. Qed.
+
+(* 5 new entries and 1 changed: price 501 units; accepted at the price, refused one unit below *)
+Example ex_accept_at_price :
+  validate_update ex_verify (ex_tx (501 * 10 ^ 8)) (encode_update ex_good) (StoreSome ex_prev) = Ok tt.
+Proof. vm_compute. reflexivity. Qed.
+Example ex_reject_below_price :
+  validate_update ex_verify (ex_tx (501 * 10 ^ 8 - 1)) (encode_update ex_good) (StoreSome ex_prev) = Err.
+Proof. vm_compute. reflexivity. Qed.
+(* approval that verifies only under the NEW custodian's key is refused *)
+Example ex_reject_foreign_approval :
+  validate_update ex_verify (ex_tx (700 * 10 ^ 8)) (encode_update ex_good)
+    (StoreSome {| p_cust := (ex_key 200, ex_key 201); p_nodes := [] |}) = Err.
+Proof. vm_compute. reflexivity. Qed.
+(* out of order, and a repeated custodian key: refused even if every signature verifies *)
+Example ex_reject_unsorted :
+  parse_update yes false (encode_update (ex_update [1; 2; 4; 3; 5; 6; 7]%N)) = Err.
+Proof. vm_compute. reflexivity. Qed.
+Example ex_reject_duplicate :
+  parse_update yes false (encode_update (ex_update [1; 2; 3; 3; 4; 5; 6; 7]%N)) = Err.
+Proof. vm_compute. reflexivity. Qed.
+Example ex_shaped_unsorted : update_shaped (ex_update [1; 2; 4; 3; 5; 6; 7]%N) /\
+  ~ StronglySorted nlt (u_nodes (ex_update [1; 2; 4; 3; 5; 6; 7]%N)).
+Proof.
+  split.
+  - unfold update_shaped. repeat split; try reflexivity.
+    repeat (constructor; [repeat split; reflexivity|]). constructor.
+  - intro S. apply sort_of_sorted in S. vm_compute in S. discriminate.
+Qed.
+(* six entries are too few; a bad payee signature is refused *)
+Example ex_reject_six : parse_update yes false (encode_update (ex_update [1; 2; 3; 4; 5; 6]%N)) = Err.
+Proof. vm_compute. reflexivity. Qed.
+Example ex_reject_bad_signature :
+  parse_update (fun k m s => negb (bytes_eqb k (ex_key 53))) false (encode_update ex_good) = Err.
+Proof. vm_compute. reflexivity. Qed.
